@@ -264,17 +264,15 @@ KeysKept(s, d, pv, nested) ==
   pv.t = "m" /\ \A k \in DOMAIN d :
      IF k \notin DOMAIN s THEN k \in DOMAIN pv.m /\ pv.m[k] = d[k]
      ELSE (nested /\ s[k].t = "m" /\ d[k].t = "m") => (k \in DOMAIN pv.m /\ KeysKept(s[k].m, d[k].m, pv.m[k], nested))
-DocFrame(s, d, pv, o) == CASE o.docSync = "copy"   -> TRUE                              \* R-copy
-                           [] o.docSync = "nosync" -> pv = d
-                           [] OTHER -> KeysKept(s.m, d.m, pv, o.docSync # "update")     \* R-update
+DocFrame(s, d, pv, o) == o.docSync = "copy" \/ KeysKept(s.m, d.m, pv, o.docSync # "update")      \* R-copy, R-update
 ReqDstOnlyUntouched(x) == IsOk(x) =>
   /\ \A j \in DOMAIN x.dst.jobs :
        /\ j \in DOMAIN x.post.jobs
        /\ \A f \in AllFiles(x.dst.jobs[j].dir, <<>>) :
             (j \notin DOMAIN x.src.jobs \/ ~FAt(x.src.jobs[j].dir, f.p).ex) => FAt(x.post.jobs[j].dir, f.p) = [ex |-> TRUE, r |-> f.r]
-       /\ IF j \in SelX(x) THEN DocFrame(x.src.jobs[j].doc, x.dst.jobs[j].doc, x.post.jobs[j].doc, x.o)
+       /\ IF j \in DOMAIN x.src.jobs THEN DocFrame(x.src.jobs[j].doc, x.dst.jobs[j].doc, x.post.jobs[j].doc, x.o)
           ELSE x.post.jobs[j].doc = x.dst.jobs[j].doc
-  /\ IF ProjLevel(x.o) /\ x.o.docSync \notin {"copy", "nosync"} THEN DocFrame(x.src.pdoc, x.dst.pdoc, x.post.pdoc, x.o)
+  /\ IF ProjLevel(x.o) /\ x.o.docSync # "copy" THEN DocFrame(x.src.pdoc, x.dst.pdoc, x.post.pdoc, x.o)
      ELSE x.post.pdoc = x.dst.pdoc
 ReqSrcUntouched(x) == x.srcSame /\ x.srcAfter = x.src
 \* "repeating the same sync changes nothing".  The repeat may RAISE (e.g. SchemaSyncConflict once a selected job was cloned into an
